@@ -377,7 +377,9 @@ func (r *rewriter) selectStmt(c *astutil.Cursor, n *ast.SelectStmt) {
 		cc := cs.(*ast.CommClause)
 		if cc.Comm == nil {
 			setup = append(setup, &ast.ExprStmt{X: method(selv, "SetDefault")})
-			cases = append(cases, &ast.CaseClause{List: []ast.Expr{intLit(-1)}, Body: cc.Body})
+			// Do() answers -1 for the default clause; as the switch's own default it keeps Go's
+			// terminating-statement analysis of the original select intact
+			cases = append(cases, &ast.CaseClause{List: nil, Body: cc.Body})
 			continue
 		}
 		var body []ast.Stmt
